@@ -56,6 +56,9 @@ def alphabet(root, full=True):
     # `$/` messages may be ignored when they are notifications; a request still gets MethodNotFound
     A.append(("unknown_req_dollar", "$/doesNotExist", {"x": 1}, True))
     A.append(("unknown_note_dollar", "$/doesNotExist", {"x": 1}, False))
+    # a method name is any string: the empty one is just another unknown method
+    A.append(("unknown_req_empty_name", "", {"x": 1}, True))
+    A.append(("unknown_note_empty_name", "", {"x": 1}, False))
     A.append(("exit_note", "exit", MISSING, False))
     A.append(("shutdown", "shutdown", MISSING, True))
     A.append(("cancel", "$/cancelRequest", {"id": 1}, False))
